@@ -188,5 +188,59 @@ def run(ctx):
         if inc and clr and p.exit not in ('cut',):
             okclear = True
     ctx.check(okwrap and okclear, 'R4', 'remove_all_modified_cnst_set: bump the counter, reset stamps on wrap-around, clear the set', where(rm), 'wrap=%s clear=%s' % (okwrap, okclear), key='R4|remove_all|wrap')
+    # ---- R5 the modified-set walk goes through enabled_element_set_: flag while the variable is still (or already) linked there ----------------
+    ctx.rule('R5', 'update_modified_cnst_set_from_variable runs while the elements of the variable are in enabled_element_set_: before they are erased, after they are inserted', 3)
+    from ..cfg import abstract_run as _arun
+    n5 = 0
+    for f in sorted(P.methods_of(SYS), key=lambda f_: f_['key']):
+        if not f.get('blocks'):
+            continue
+        v5 = A.view(f)
+        kinds = set()
+        for eid in range(len(f['elems'])):
+            for e in v5.events_of(eid):
+                if e.kind == 'call':
+                    k5 = ev_kind(e)
+                    if k5:
+                        kinds.add(k5)
+        if not (kinds & {'E', 'I'}) or f['q'].endswith('::check_concurrency'):
+            continue
+
+        def tr5(st, e):
+            useen, e_since_i, i_since_u, bad = st
+            if e.kind != 'call':
+                return None
+            k = ev_kind(e)
+            if k == 'U':
+                return (True, e_since_i, False, bad or ('flagged at line %s after its elements left enabled_element_set_ (line %s): the walk no longer reaches its other constraints' % (e.line, e_since_i) if e_since_i else None))
+            if k == 'E':
+                return (useen, e_since_i or e.line, i_since_u, bad or (None if useen else 'elements leave enabled_element_set_ at line %s before the variable was flagged' % e.line))
+            if k == 'I':
+                return (useen, None, e.line, bad)
+            return None
+        exits = _arun(A, f, (False, None, False, None), tr5)
+        sts = exits['normal']
+        bad5 = sorted(set(s[3] for s in sts if s[3]))
+        late = sorted(set(s[2] for s in sts if s[2] and s[0])) if 'U' in kinds else []
+        n5 += 1
+        short = f['q'].replace(SYS + '::', '')
+        detail = bad5[0] if bad5 else ('elements enter enabled_element_set_ at line %s after the last flagging' % late[0] if late else '')
+        ctx.check(bool(sts) and not bad5 and not late, 'R5', '%s: flagging is ordered with the moves of the elements (%s)' % (short, ''.join(sorted(kinds))), where(f), detail, key='R5|%s|order' % short)
+    ctx.require(n5 >= 3, 'R5', 'only %d System methods moving elements of enabled_element_set_ found' % n5)
     ctx.assume('setters listed as pre-solve exceptions are only used while resources are created (not re-verified here)')
     return EXPLANATION
+
+
+def ev_kind(e):
+    """U: flag the constraints of a variable; E: an element leaves enabled_element_set_; I: an element enters it"""
+    if e.q.endswith('::update_modified_cnst_set_from_variable'):
+        return 'U'
+    r = repr(e.nf)
+    if 'enabled_element_set_' in r:
+        if e.q.endswith('intrusive_erase') and e.args and 'enabled_element_set_' in repr(e.args[0]):
+            return 'E'
+        if e.q.rsplit('::', 1)[-1] in ('push_front', 'push_back', 'insert') and e.obj is not None and 'enabled_element_set_' in repr(e.obj) and 'disabled' not in repr(e.obj):
+            return 'I'
+        if e.q.rsplit('::', 1)[-1] in ('erase',) and e.obj is not None and 'enabled_element_set_' in repr(e.obj):
+            return 'E'
+    return None
